@@ -253,7 +253,11 @@ def generate_property(
             f'public {type_name}{optional} {name} {{ get; init; }} = "{prop_def.type.value}";'
         )
     elif prop_def.type.kind == "base" and prop_def.type.name == "uinteger":
-        private_name = f"_{prop_def.name}" if prop_def.name == name else prop_def.name
+        private_name = (
+            f"_{prop_def.name}"
+            if prop_def.name == name
+            else get_special_case_property_name(prop_def.name)
+        )
         lines.append(
             f"public {type_name}{optional} {name} {{ get => {private_name}; set => {private_name} = Validators.validUInteger(value); }}"
         )
